@@ -1923,3 +1923,39 @@ Theorem complete_sound_dops cfgs msgs rounds fuel order ops :
   check_C04_complete (map c_link cfgs)
     (trace_of (run_dops rounds fuel order (init cfgs msgs) ops)) = true.
 Proof. rewrite run_dops_labels. apply complete_sound. Qed.
+
+(* "no enabled label other than external operations": polling changes nothing *)
+Definition quiescent (w : world) : Prop := forall i fuel, poll fuel w i = w.
+
+Lemma enter_trace w i a c : get w i = Some a -> w_trace (enter w i c) = TEnter i c :: w_trace w.
+Proof. intros Eg. unfold enter. rewrite Eg. destruct (script_of w a c). reflexivity. Qed.
+
+Lemma quiescent_settled w : quiescent w -> settled w.
+Proof.
+  intros Q i a Eg Epc. specialize (Q i 1). unfold poll, resume in Q. rewrite Eg, Epc in Q.
+  cbn [segs] in Q. assert (Q' : w_trace (fst (seg w i)) = w_trace w).
+  { destruct (seg w i) as [w' go]. destruct go; simpl in *; rewrite Q; reflexivity. }
+  clear Q. unfold seg in Q'. rewrite Eg, Epc in Q'.
+  assert (Hgrow : forall e, w_trace w <> e :: w_trace w).
+  { intros e E. apply (f_equal (@length tev)) in E. simpl in E. lia. }
+  destruct (a_sig a) eqn:Esig.
+  - exfalso. cbn [fst] in Q'. unfold killed_exit, finish in Q'. simpl in Q'.
+    rewrite trace_cleanup, trace_upd in Q'. unfold terminate in Q'. rewrite trace_terminate_fuel in Q'.
+    unfold consume_sig in Q'. rewrite trace_upd in Q'. symmetry in Q'. apply (Hgrow _ Q').
+  - split; [reflexivity|].
+    assert (Hstart : forall F c, a_sig (F a) = false ->
+              w_trace (start_cb (upd w i F) i c) = TEnter i c :: w_trace w).
+    { intros F c Hs. unfold start_cb. rewrite get_upd_same, Eg. cbn [option_map]. rewrite Hs.
+      rewrite (enter_trace _ i (F a)); [reflexivity|]. rewrite get_upd_same, Eg. reflexivity. }
+    destruct (a_stop a) as [r|] eqn:Est.
+    + exfalso. cbn [fst] in Q'. unfold graceful_exit in Q'. rewrite upd_upd in Q'.
+      rewrite Hstart in Q' by (simpl; exact Esig). symmetry in Q'. apply (Hgrow _ Q').
+    + destruct (a_supq a) as [|e t] eqn:Eq; [reflexivity|].
+      exfalso. cbn [fst] in Q'. rewrite Hstart in Q' by (simpl; exact Esig).
+      symmetry in Q'. apply (Hgrow _ Q').
+Qed.
+
+Theorem complete_sound_quiescent cfgs msgs ls :
+  quiescent (run (init cfgs msgs) ls) ->
+  check_C04_complete (map c_link cfgs) (trace_of (run (init cfgs msgs) ls)) = true.
+Proof. intros Q. apply complete_sound. apply quiescent_settled. exact Q. Qed.
